@@ -164,6 +164,7 @@ def run(ctx, impl_only=False):
     # inputs that share objects (one list at several positions of t1; t2 a shallow copy or a sub-object of t1)
     pairs += FAM.alias_pairs(ctx, max(12, n // 12))
     pairs += FAM.rich_pairs(ctx, n // 4)
+    pairs += FAM.hostile_pairs(ctx, n // 4)
     # dictionary keys that a repr would escape (backslash, control and non-printing characters): the reported paths still lead to the values
     for k in ['C:\\temp\\new.txt', 'a\nb', 'tab\there', 'nb\xa0sp', 'back\\', "q'uote", 'a\\nb', '\x7f', 'é\u200b']:
         inner = ctx.rng.choice([lambda v: {'v': v}, lambda v: [0, v], lambda v: v])
